@@ -115,6 +115,20 @@ PROJECTIONS = {
     'events_noloc': p_events_noloc, 'pending': p_pending, 'usage': p_usage, 'handlers': p_handlers, 'full': p_full,
 }
 
+def _capi_tok(t):
+    """what the C API can observe of a token: no attribute locations, no text type, no force-quirks flag"""
+    t = re.sub(r'@[0-9.\-?]+/[0-9.\-?]+', '', t)
+    t = re.sub(r'^(T \d+\.\.\d+) \S+ ', r'\1 ? ', t)
+    t = re.sub(r'^(D .*) \S+$', r'\1 ?', t)
+    return t
+def p_capi(case):
+    out = []
+    for c in case['calls']:
+        chunks = [x[1:] for x in c['sink'] if x.startswith('c')]
+        out.append((norm_res(c['res']), ''.join(chunks), [x == '' for x in chunks][-1:] , list(zip(c.get('handlers', []), [_capi_tok(e) for e in c['events']]))))
+    return out
+PROJECTIONS['capi'] = p_capi
+
 def compare(impl_path, model_path, projections=None):
     A, order = parse(impl_path)
     B, _ = parse(model_path)
